@@ -36,7 +36,7 @@ ASSUMPTIONS = [
     "files are compared as raw bytes when the workspace path is identical, and as decoded feather rows / text with the workspace path masked otherwise",
     "a front-end crash or error exit is an outcome and is compared like any other",
 ]
-PROBES = ["nonempty_tables", "hashseed_varied", "dirent_varied", "heap_varied", "ws_sibling", "ws_otherfs", "ws_relative", "ws_symlink",
+PROBES = ["nonempty_tables", "hashseed_varied", "dirent_varied", "heap_varied", "clock_varied", "ws_sibling", "ws_otherfs", "ws_relative", "ws_symlink",
           "cwd_varied", "pyopt_varied", "ws_symlink_inner", "ws_named_externs", "ws_named_src", "ws_named_default", "ws_named_glob", "ws_symlink_sub", "history_other_settings",
           "history_same_project", "history_other_project", "history_crashed_run", "multi_file_project", "corpus_project",
           "generated_project", "sub_run", "sub_semantic", "taint_phase_ran", "baseline_completed", "baseline_ended_early", "not_quiet", "taint_report_written"]
@@ -121,16 +121,20 @@ def gen_knobs(rng, tier):
 STRATIFY = True
 WS_KINDS = ["sibling", "otherfs", "relative", "symlink", "symlink_inner", "named_externs", "named_src", "named_default", "named_glob", "symlink_sub"]
 HIST_CYCLE = [{"proj": "B"}, {"proj": "A"}, {"proj": "B"}, {"proj": "B", "crash_at": 15}, {"proj": "B", "settings": "alt"}]
-DIM_CYCLE = ["ws", "hashseed", "history", "ws", "dirent", "pyopt", "ws", "heap", "cwd"]
+DIM_CYCLE = ["ws", "hashseed", "history", "ws", "dirent", "pyopt", "ws", "heap", "cwd", "clock"]
 
 
 def _gen_variant(rng, baseline, forced_dim=None, forced_ws=None):
     v = dict(baseline)
-    dims = rng.sample(["hashseed", "dirent", "heap", "ws", "history", "cwd", "pyopt"], rng.choice([1, 1, 1, 2, 3]))
+    dims = rng.sample(["hashseed", "dirent", "heap", "ws", "history", "cwd", "pyopt", "clock"], rng.choice([1, 1, 1, 2, 3]))
     if forced_dim and forced_dim not in dims:
         dims.append(forced_dim)         # stratification: every dimension (and every workspace location) turns up regularly
     if "pyopt" in dims:
         v["pyopt"] = rng.choice([1, 1, 2])      # the analysing interpreter started with -O / -OO
+    if "clock" in dims:
+        # simulated time: an hour passes between any two looks at a clock (a slow or loaded machine, a huge project), ten
+        # minutes, or time stands still
+        v["clock"] = rng.choice(["jump:3600", "jump:3600", "jump:600", "frozen", "step:0.5"])
     if "cwd" in dims:
         v["cwd"] = rng.choice(["elsewhere", "project"])       # where the process is started from (all paths stay absolute)
     if "hashseed" in dims or rng.random() < 0.5:
@@ -188,8 +192,11 @@ def generate(rng, k):
     if DIM_CYCLE[ri % len(DIM_CYCLE)] == "history":
         lang_op["quiet"] = False          # runs that vary the machine's history: with the report files of a non-quiet run
         lang_op["sub"] = "run"            # ... of the whole pipeline, taint phase included
+    if DIM_CYCLE[ri % len(DIM_CYCLE)] == "ws" and WS_KINDS[(ri // 3) % len(WS_KINDS)] == "otherfs":
+        lang_op["quiet"] = False          # the workspace on another file system than the temporary directory: all report files
+        lang_op["sub"] = "run"
     ops.append(lang_op)
-    baseline = {"op": "variant", "hashseed": 0, "dirent": "natural", "heap_pad": 0, "ws": "same", "history": []}
+    baseline = {"op": "variant", "hashseed": 0, "dirent": "natural", "heap_pad": 0, "ws": "same", "history": [], "clock": "natural"}
     ops.append(baseline)
     for j in range(k["n_variants"] - 1):
         if j == 0:
@@ -360,7 +367,7 @@ def execute(trace):
             def spec_for(proj, crash_at=None):
                 argv = lianrun.build_argv({"sub": k["sub"], "lang": lang, "force": True, "workspace": w_arg, "quiet": quiet,
                                            "inputs": [proj], "flags": k["flags"], "stock_settings": k.get("stock_settings")}, run_settings)
-                return {"argv": argv, "cwd": cwd, "dirent": v.get("dirent", "natural"), "heap_pad": v.get("heap_pad", 0),
+                return {"argv": argv, "cwd": cwd, "dirent": v.get("dirent", "natural"), "heap_pad": v.get("heap_pad", 0), "clock": v.get("clock", "natural"),
                         "settings": run_settings, "stock_settings": k.get("stock_settings", False), "ws": W, "mask": masks,
                         "crash_at": crash_at}
             # ---- machine history: earlier separate processes into the same workspace path
@@ -407,6 +414,9 @@ def execute(trace):
             if v.get("heap_pad", 0) != base_v.get("heap_pad", 0):
                 dims.append("heap")
                 hit("heap_varied")
+            if v.get("clock", "natural") != base_v.get("clock", "natural"):
+                dims.append("clock")
+                hit("clock_varied")
             if wsk != base_v.get("ws", "same"):
                 dims.append("ws")
                 hit("ws_" + wsk)
@@ -481,7 +491,7 @@ def simplify(trace):
         base = ops[vidx[0]]
         for i in vidx[1:]:
             v = ops[i]
-            for dim, key in (("history", "history"), ("ws", "ws"), ("cwd", "cwd"), ("pyopt", "pyopt"), ("heap", "heap_pad"), ("dirent", "dirent"), ("hashseed", "hashseed")):
+            for dim, key in (("history", "history"), ("ws", "ws"), ("cwd", "cwd"), ("pyopt", "pyopt"), ("heap", "heap_pad"), ("clock", "clock"), ("dirent", "dirent"), ("hashseed", "hashseed")):
                 if v.get(key) != base.get(key):
                     yield dict(trace, ops=ops[:i] + [dict(v, **{key: base.get(key)})] + ops[i + 1:])
             if len(v.get("history", [])) > 1:
